@@ -53,6 +53,45 @@ type shard struct {
 	handlers map[reflect.Type][]*internalHandler
 }
 
+// asyncCounter counts running async handlers for Wait and Shutdown. Unlike a
+// sync.WaitGroup it may be incremented from zero while other goroutines are
+// waiting, which is what happens when Publish and Wait run concurrently (a
+// WaitGroup panics in that case: "Add called concurrently with Wait").
+type asyncCounter struct {
+	mu   sync.Mutex
+	n    int
+	zero chan struct{} // closed when n returns to zero; nil while n == 0
+}
+
+func (c *asyncCounter) Add(int) {
+	c.mu.Lock()
+	if c.n == 0 {
+		c.zero = make(chan struct{})
+	}
+	c.n++
+	c.mu.Unlock()
+}
+
+func (c *asyncCounter) Done() {
+	c.mu.Lock()
+	c.n--
+	if c.n == 0 {
+		close(c.zero)
+		c.zero = nil
+	}
+	c.mu.Unlock()
+}
+
+// Wait blocks until every handler counted so far has finished.
+func (c *asyncCounter) Wait() {
+	c.mu.Lock()
+	zero := c.zero
+	c.mu.Unlock()
+	if zero != nil {
+		<-zero
+	}
+}
+
 // EventBus is a high-performance event bus with sharded locks
 type EventBus struct {
 	shards           [numShards]*shard
@@ -61,7 +100,7 @@ type EventBus struct {
 	afterPublish     PublishHook
 	beforePublishCtx PublishHookContext
 	afterPublishCtx  PublishHookContext
-	wg               sync.WaitGroup
+	wg               asyncCounter
 
 	// Optional persistence fields (nil if not using persistence)
 	store                   EventStore
